@@ -537,7 +537,17 @@ def run_sweep(ctx, i):
     do(lambda: preprocess.noise_map_via_weight_map_from(weight_map=data))
     do(lambda: preprocess.noise_map_via_inverse_noise_map_from(inverse_noise_map=data))
     do(lambda: preprocess.data_with_gaussian_noise_added(data=data, sigma=0.1, seed=1))
-    do(lambda: preprocess.data_with_poisson_noise_added(data=data, exposure_time_map=aa.Array2D.full(fill_value=100.0, shape_native=(H, W), pixel_scales=ps), seed=1))
+    etm = own("exposure_time_map", aa.Array2D.full(fill_value=100.0, shape_native=(H, W), pixel_scales=ps))
+    do(lambda: preprocess.data_eps_with_poisson_noise_added(data_eps=data, exposure_time_map=etm, seed=1))
+    do(lambda: preprocess.noise_map_via_data_eps_and_exposure_time_map_from(data_eps=data, exposure_time_map=etm))
+    do(lambda: preprocess.array_eps_to_counts(array_eps=data, exposure_time_map=etm))
+    do(lambda: preprocess.array_counts_to_eps(array_counts=data, exposure_time_map=etm))
+    do(lambda: preprocess.array_with_random_uniform_values_added(array=data))
+    do(lambda: preprocess.array_with_new_shape(array=data, new_shape=(H + 2, W + 1)))
+    do(lambda: preprocess.background_sky_level_via_edges_from(image=data, no_edges=1))
+    do(lambda: preprocess.edges_from(image=data, no_edges=1))
+    do(lambda: preprocess.visibilities_noise_map_with_signal_to_noise_limit_from(data=aa.Visibilities(visibilities=cvis),
+                                                                              noise_map=aa.VisibilitiesNoiseMap(visibilities=np.abs(cvis.real) + 1 + 1j * (np.abs(cvis.imag) + 1)), signal_to_noise_limit=0.5))
     do(lambda: preprocess.poisson_noise_via_data_eps_from(data_eps=data, exposure_time_map=aa.Array2D.full(fill_value=100.0, shape_native=(H, W), pixel_scales=ps), seed=1))
     do(lambda: preprocess.background_noise_map_via_edges_from(image=data, no_edges=1))
     do(lambda: preprocess.data_with_complex_gaussian_noise_added(data=cvis, sigma=0.1, seed=1))
